@@ -17,7 +17,7 @@ VERIF = os.path.dirname(os.path.dirname(os.path.abspath(__file__)))
 sys.path.insert(0, os.path.join(VERIF, "tools"))
 from mutants import MUTANTS  # noqa
 
-REPO = "/repo"
+REPO = os.environ.get("MUT_BASE", "/repo")  # (a clean snapshot while something else patches /repo)
 
 
 def run_one(idx, mut, tier, skip_tests, workers):
